@@ -65,7 +65,10 @@ func c09Hostile(fa *FullApp, rng *rand.Rand, history *[]string) []FATx {
 	if rng.Intn(4) == 0 {
 		i := rng.Intn(len(fa.Vals))
 		v := fa.ValidatorOperator(i)
-		mults := []string{"1.1", "0", "0.000000000000000001", "-1", "1000000000000000000000000000000", "340282366920938463463374607431768211455", "18446744073709551616"}
+		// up to the largest values a LegacyDec holds (315 bits including the 18 decimals, about 6.6e76): the product with
+		// a gas estimate then leaves that range
+		mults := []string{"1.1", "0", "0.000000000000000001", "-1", "1000000000000000000000000000000", "340282366920938463463374607431768211455", "18446744073709551616",
+			"1" + strings.Repeat("0", 58), "1" + strings.Repeat("0", 70), "1" + strings.Repeat("0", 76), "6" + strings.Repeat("0", 76)}
 		ms := mults[rng.Intn(len(mults))]
 		m, _ := sdkmath.LegacyNewDecFromStr(ms)
 		fs := treasurytypes.RelayerFeeSetting_FeeSetting{Multiplicator: m, ChainReferenceId: "test-chain"}
